@@ -12,6 +12,7 @@ import (
 	"io"
 	"math"
 	"reflect"
+	"regexp"
 	"sort"
 	"strings"
 	"sync"
@@ -759,7 +760,7 @@ func respDiff(exp, got Resp) string {
 		return "kind"
 	case exp.Node != got.Node:
 		return "node"
-	case exp.Text != got.Text:
+	case !textMatch(exp.Text, got.Text, exp.Wild):
 		return "text"
 	case !sameTags(exp.Tags, got.Tags):
 		return "tags"
@@ -767,7 +768,7 @@ func respDiff(exp, got Resp) string {
 		return "options"
 	}
 	for i := range exp.Opts {
-		if exp.Opts[i].Text != got.Opts[i].Text || !sameTags(exp.Opts[i].Tags, got.Opts[i].Tags) {
+		if !textMatch(exp.Opts[i].Text, got.Opts[i].Text, exp.Wild) || !sameTags(exp.Opts[i].Tags, got.Opts[i].Tags) {
 			return "options"
 		}
 	}
@@ -777,4 +778,21 @@ func respDiff(exp, got Resp) string {
 		}
 	}
 	return ""
+}
+
+// textMatch compares an expected text with an observed one; with wild set, each
+// \x00 in the expected text stands for one number whose display form is not claimed.
+func textMatch(exp, got string, wild bool) bool {
+	if !wild || !strings.Contains(exp, "\x00") {
+		return exp == got
+	}
+	segs := strings.Split(exp, "\x00")
+	for i := range segs {
+		segs[i] = regexp.QuoteMeta(segs[i])
+	}
+	re, err := regexp.Compile("^" + strings.Join(segs, `\S+`) + "$")
+	if err != nil {
+		return false
+	}
+	return re.MatchString(got)
 }
